@@ -92,7 +92,8 @@ Qed.
 
 (* design item 19: with the unrepaired code close() can wait forever *)
 Lemma failed_task_hangs :
-  exists c, run false c0 hang_prefix = Some c /\ c_main c <> None /            forall evs c', run false c evs = Some c' -> c_closed c' <> FDone.
+  exists c, run false c0 hang_prefix = Some c /\ c_main c <> None /\
+      forall evs c', run false c evs = Some c' -> c_closed c' <> FDone.
 Proof.
   destruct hang_prefix_stuck as (c & HR & HS). exists c. split; [exact HR|]. split.
   - destruct HS as (_ & (id & todo & Hm) & _). congruence.
@@ -130,7 +131,9 @@ Definition race_trace : list ev :=
    EPumpEnd 0 0; ETaskEnd KSRtp 0 true].
 
 Lemma connect_race_leaks :
-  exists c x, run false c0 race_trace = Some c /\ c_closed c = FDone /              nth_error (c_trx c) 0 = Some x /              s_rtcp (t_s x) = TRunning /\ r_rtcp (t_r x) = TRunning /\ r_dec (t_r x) = true.
+  exists c x, run false c0 race_trace = Some c /\ c_closed c = FDone /\
+      nth_error (c_trx c) 0 = Some x /\
+      s_rtcp (t_s x) = TRunning /\ r_rtcp (t_r x) = TRunning /\ r_dec (t_r x) = true.
 Proof. do 2 eexists. split; [vm_compute; reflexivity|]. cbn. auto. Qed.
 
 Lemma connect_race_rejected : run true c0 race_trace = None.
@@ -152,11 +155,13 @@ Proof. vm_compute. reflexivity. Qed.
 
 (* the track of a receiver that never started is not told that it has ended *)
 Lemma unstarted_track_not_ended :
-  exists c x, run false c0 close_all = Some c /\ c_closed c = FDone /              nth_error (c_trx c) 0 = Some x /\ r_eos (t_r x) = false.
+  exists c x, run false c0 close_all = Some c /\ c_closed c = FDone /\
+      nth_error (c_trx c) 0 = Some x /\ r_eos (t_r x) = false.
 Proof. do 2 eexists. split; [vm_compute; reflexivity|]. cbn. auto. Qed.
 
 Lemma unstarted_track_ended_fixed :
-  exists c x, run true c0 close_all = Some c /\ c_closed c = FDone /              nth_error (c_trx c) 0 = Some x /\ r_eos (t_r x) = true.
+  exists c x, run true c0 close_all = Some c /\ c_closed c = FDone /\
+      nth_error (c_trx c) 0 = Some x /\ r_eos (t_r x) = true.
 Proof. do 2 eexists. split; [vm_compute; reflexivity|]. cbn. auto. Qed.
 
 (* ICE: start() finishing after stop() leaves the transport "completed" with aioice's consent
@@ -168,15 +173,19 @@ Definition ice_race : list ev :=
    EStopCall (OIceStop 0); EIceConnClosed 0; EMonEnd 0; EStopRet (OIceStop 0); ECloseRet 0].
 
 Lemma ice_start_race_leaks :
-  exists c tp, run false c0 (ice_race ++ [EIceStartRet 0 true]) = Some c /\ c_closed c = FDone /               nth_error (c_tps c) 0 = Some tp /\ i_consent tp = true /\ i_state tp = ICompleted.
+  exists c tp, run false c0 (ice_race ++ [EIceStartRet 0 true]) = Some c /\ c_closed c = FDone /\
+      nth_error (c_tps c) 0 = Some tp /\ i_consent tp = true /\ i_state tp = ICompleted.
 Proof. do 2 eexists. split; [vm_compute; reflexivity|]. cbn. auto. Qed.
 
 Lemma ice_start_race_fixed :
-  exists c tp, run true c0 (ice_race ++ [EIceStartRet 0 true]) = Some c /\ c_closed c = FDone /               nth_error (c_tps c) 0 = Some tp /\ i_consent tp = false /\ i_state tp = IClosed.
+  exists c tp, run true c0 (ice_race ++ [EIceStartRet 0 true]) = Some c /\ c_closed c = FDone /\
+      nth_error (c_tps c) 0 = Some tp /\ i_consent tp = false /\ i_state tp = IClosed.
 Proof. do 2 eexists. split; [vm_compute; reflexivity|]. cbn. auto. Qed.
 
 Lemma ice_start_never_returns :
-  exists c tp, run false c0 ice_race = Some c /\ c_closed c = FDone /               nth_error (c_tps c) 0 = Some tp /\ i_starting tp = true /               step false c (EIceStartRet 0 false) = None.
+  exists c tp, run false c0 ice_race = Some c /\ c_closed c = FDone /\
+      nth_error (c_tps c) 0 = Some tp /\ i_starting tp = true /\
+      step false c (EIceStartRet 0 false) = None.
 Proof. do 2 eexists. split; [vm_compute; reflexivity|]. cbn. auto. Qed.
 
 Lemma ice_start_returns_fixed :
